@@ -197,10 +197,58 @@ fn attrs_of_bits(bits: u16) -> FaceAttrs {
     a
 }
 
+/// what a value feeds to a hasher through its (derived) `Hash`: the raw fields, without any accessor
+#[derive(Default)]
+struct RecordingHasher(Vec<u64>);
+impl std::hash::Hasher for RecordingHasher {
+    fn finish(&self) -> u64 {
+        0
+    }
+    fn write(&mut self, bytes: &[u8]) {
+        for b in bytes {
+            self.0.push(*b as u64);
+        }
+    }
+    fn write_u16(&mut self, i: u16) {
+        self.0.push(i as u64);
+    }
+    fn write_u32(&mut self, i: u32) {
+        self.0.push(i as u64);
+    }
+    fn write_u64(&mut self, i: u64) {
+        self.0.push(i);
+    }
+    fn write_usize(&mut self, i: usize) {
+        self.0.push(i as u64);
+    }
+}
+fn hash_words<T: std::hash::Hash>(t: &T) -> Vec<u64> {
+    let mut h = RecordingHasher::default();
+    t.hash(&mut h);
+    h.0
+}
+/// the private `bits: u16` of a `FaceAttrs`, read raw (derived `Hash` writes the one field); the accessor based
+/// `attrs_bits` is cross-checked against it wherever both are available
+fn attrs_raw(a: FaceAttrs) -> u64 {
+    hash_words(&a).first().copied().unwrap_or(u64::MAX)
+}
+/// the private `bits: u32` of a `KeyMod`, read raw
+fn keymod_raw(m: KeyMod) -> u64 {
+    hash_words(&m).first().copied().unwrap_or(u64::MAX)
+}
+/// a face as raw pieces: colour bytes and the raw attribute word — equality of faces is judged on these, not
+/// through `PartialEq for Face`
+fn face_raw(f: &Face) -> (Option<[u8; 4]>, Option<[u8; 4]>, u64) {
+    (f.fg.map(|c| c.to_rgba()), f.bg.map(|c| c.to_rgba()), attrs_raw(f.attrs))
+}
+
 fn color_wire(c: Option<RGBA>) -> String {
     match c {
         None => "none".to_string(),
-        Some(c) => format!("{}.{}.{}.{}", c.red(), c.green(), c.blue(), c.alpha()),
+        Some(c) => {
+            let [r, g, b, a] = c.to_rgba();
+            format!("{r}.{g}.{b}.{a}")
+        }
     }
 }
 fn color_from_wire(s: &str) -> Option<RGBA> {
@@ -208,7 +256,7 @@ fn color_from_wire(s: &str) -> Option<RGBA> {
     if v.len() == 4 { Some(RGBA::new(v[0], v[1], v[2], v[3])) } else { None }
 }
 fn face_wire(f: &Face) -> String {
-    format!("{} {} {}", color_wire(f.fg), color_wire(f.bg), attrs_bits(f.attrs))
+    format!("{} {} {}", color_wire(f.fg), color_wire(f.bg), attrs_raw(f.attrs))
 }
 
 // ---------------------------------------------------------------------------------------------
